@@ -184,7 +184,7 @@ class FortLineLength():
                     # Couldn't find a valid point to break the line.
                     # Remove indentation and try again.
                     line = line.lstrip()
-                    if len(line) < self._line_length:
+                    if len(line) <= self._line_length:
                         fortran_out += line + "\n"
                         continue
                     break_point = find_break_point(
